@@ -2,11 +2,15 @@
    Proofs.v and followed by Print Assumptions.
 
    [run cfg ops] is the state of the model of Lysosome after the calls [ops]
-   (ingest of any waste type with any created_at, ingest_error,
-   ingest_sensitive, digest(k), autophagy, clock advance), from the fresh
-   object, for configuration [cfg]; every ingested item carries the outcome
-   its digester (or on_toxic) will have.  [ops] is arbitrary, so "the state
-   after [ops]" is "the state after every call of every history".
+   (ingest of any waste type with any created_at - also one that is
+   timezone-aware or not a datetime -, ingest_error, ingest_sensitive,
+   digest(k), digest(<not an integer>), autophagy, clock advance), from the
+   fresh object, for configuration [cfg]; every ingested item carries the
+   outcome its digester (or on_toxic) will have.  [ops] is arbitrary, so "the
+   state after [ops]" is "the state after every call of every history" -
+   histories in which calls RAISE inside the object (outcome [RRaised]: the
+   exception propagates to the caller, who goes on) included: every theorem
+   below holds after such calls as well.
 
    The generated obligation [Gen_C13_ok : no_self_deadlock gen_kind gen_graph
    && single_lock gen_graph = true] (on the lock kind and call structure read
@@ -116,6 +120,39 @@ Theorem c13_every_call_returns_threads :
       (exists i, m_code m i <> []) -> exists m', mstep k m m'.
 Proof. exact lock_discipline_no_deadlock. Qed.
 Print Assumptions c13_every_call_returns_threads.
+
+(* Error paths.  A call that raises is a call that returns - to a caller who
+   handles the exception and goes on, on this thread or another one.
+   (1) Exactly these calls raise: digest(<not an integer>), and autophagy() when
+       some queued item cannot be compared (created_at timezone-aware / not a
+       datetime, or retention_period not a timedelta); ingest never does,
+       whatever the item.
+   (2) A call that raises leaves the object exactly as it was: queue,
+       counters, recycling bin, on_toxic log and the ghost fates - so every
+       ingested item is still exactly one of queued / digested / ... *)
+Theorem c13_raising_calls_change_nothing :
+  forall cfg s o,
+    (snd (step cfg s o) = RRaised <->
+       (o = DigestBad \/
+        (o = Autophagy /\ exists it, In it (queue s) /\ comparable cfg it = false))) /\
+    (snd (step cfg s o) = RRaised -> fst (step cfg s o) = s).
+Proof. exact raising_calls_proof. Qed.
+Print Assumptions c13_raising_calls_change_nothing.
+
+(* Every call returns, (iii): error paths on the lock machine.  Every thread
+   calls any methods in any order and ANY of its calls may raise at ANY point of
+   its program ([Some n]: after n instructions; the exception leaves through the
+   `with self._lock:` blocks it is inside, each giving the lock back: [unwind]).
+   If the call graph passes the checks then no reachable configuration with an
+   unfinished thread is stuck: after a call that raised - on any thread - the
+   calls of every other thread still get the lock and return. *)
+Theorem c13_every_call_returns_after_a_raising_call :
+  forall k g, no_self_deadlock k g && single_lock g = true ->
+    forall fuel (calls : nat -> list xcall) m,
+      mreach k (minit (fun i => thread_prog_x g fuel (calls i))) m ->
+      (exists i, m_code m i <> []) -> exists m', mstep k m m'.
+Proof. exact error_paths_no_deadlock. Qed.
+Print Assumptions c13_every_call_returns_after_a_raising_call.
 
 (* ---------------------------------------------------------------------- *)
 (* Overlapping calls ("from any number of threads").  digest() runs its
@@ -229,8 +266,10 @@ Print Assumptions c13_every_call_returns_overlapping.
 (* The threshold reassigned at run time.  auto_digest_threshold is a plain
    public attribute; [rrun cfg ops] is the (configuration in force, state)
    after a history [ops] over  ROp (any step of the interleaved semantics) |
-   SetThr t  (lysosome.auto_digest_threshold = t), every call running under
-   the threshold in force when it is made (Model.v, Part 1d).  The statements
+   SetThr t  (lysosome.auto_digest_threshold = t) |  SetRet r
+   (lysosome.retention_period = a timedelta / something that is not one), every
+   call running under the threshold and retention in force when it is made
+   (Model.v, Part 1d).  The statements
    are those of the c13_overlap_* theorems above, for that state: the
    predicates *_cs (Proofs.v) are their bodies with the state as a parameter
    (Examples.v, cs_statements_are_the_overlap_statements). *)
@@ -388,6 +427,27 @@ Theorem c13_threads_every_call_returns :
     (work ts = 0%nat -> all_done ts = true).
 Proof. exact threads_return_proof. Qed.
 Print Assumptions c13_threads_every_call_returns.
+
+(* A call of a thread that raises, under any schedule, after any history: the
+   object is exactly as it was (state, calls in progress, results returned), the
+   call was digest(<not an integer>) or an autophagy() over a queue it cannot
+   sweep, the thread has gone on to its next call - and every thread that has
+   something left to do (this one or any other) can move: it is not blocked, and
+   its move is a step of a call after which strictly less work is left. *)
+Theorem c13_threads_after_a_raising_call :
+  forall cfg pre progs sched i,
+    let st := rrun cfg pre in
+    let cfg' := fst st in
+    let ts := trun cfg' (mkT (snd st) progs) sched in
+    let ts' := fst (tstep cfg' ts i) in
+    snd (tstep cfg' ts i) = CRet RRaised ->
+      t_cs ts' = t_cs ts /\
+      (exists o rest, nth i (t_progs ts) [] = o :: rest /\ t_progs ts' = set_nth i rest (t_progs ts) /\
+                      (o = DigestBad \/ (o = Autophagy /\ sweepable cfg' (c_base (t_cs ts)) = false))) /\
+      (forall j, busy ts' j = true ->
+         snd (tstep cfg' ts' j) <> CBad /\ (work (fst (tstep cfg' ts' j)) < work ts')%nat).
+Proof. exact threads_raising_proof. Qed.
+Print Assumptions c13_threads_after_a_raising_call.
 
 (* Every call is a finite program with one critical section.  For ANY call
    graph that passes the two decidable checks (regenerated from lysosome.py and
